@@ -13,6 +13,7 @@ import (
 	"os"
 	"os/exec"
 	"runtime"
+	"runtime/debug"
 	"strings"
 	"sync"
 	"syscall"
@@ -41,6 +42,12 @@ type Model interface {
 	NumOps() int
 	// Enabled may prune operations that make no sense in the current state.
 	Enabled(op int) bool
+}
+
+// Prefilter is an optional interface: decide from the history alone (without replaying it)
+// that op cannot be enabled after it.
+type Prefilter interface {
+	Possible(history []int, op int) bool
 }
 
 // Scope is one bounded search.
@@ -89,6 +96,20 @@ func names(m Model, h []int) []string {
 	return l
 }
 
+// safeApply turns a panic of the code under test into a violation.
+func safeApply(m Model, op int) (v *Violation) {
+	defer func() {
+		if e := recover(); e != nil {
+			st := string(debug.Stack())
+			if len(st) > 3000 {
+				st = st[:3000]
+			}
+			v = &Violation{Key: "panic", Msg: fmt.Sprintf("panic while applying %s: %v\n%s", m.OpName(op), e, st)}
+		}
+	}()
+	return m.Apply(op)
+}
+
 // search explores all histories whose first operation index i satisfies i%n == shard.
 func search(sc *Scope, shard, n int, deadline time.Time) *result {
 	m := sc.NewModel()
@@ -113,6 +134,9 @@ func search(sc *Scope, shard, n int, deadline time.Time) *result {
 					res.Complete = false
 					return res
 				}
+				if pf, ok := m.(Prefilter); ok && !pf.Possible(s.h, op) {
+					continue
+				}
 				m.Reset()
 				for _, o := range s.h {
 					m.Apply(o)
@@ -121,7 +145,7 @@ func search(sc *Scope, shard, n int, deadline time.Time) *result {
 				if !m.Enabled(op) {
 					continue
 				}
-				v := m.Apply(op)
+				v := safeApply(m, op)
 				res.Transitions++
 				h := append(append([]int(nil), s.h...), op)
 				if v != nil {
